@@ -5,12 +5,12 @@ from check import Suite
 from props.commands import *
 
 def gen_histories(tier, rng):
-    n = 2000 if tier == "quick" else 40000
+    n = 2000 if tier == "quick" else 200000
     out = []
     for _ in range(n):
         doc, cfg, steps = make_history(rng)
         out.append(history_request(doc.render(), cfg, steps))
-    for _ in range(400 if tier == "quick" else 10000):
+    for _ in range(400 if tier == "quick" else 40000):
         b, cfg, steps = pause_scenario(rng)
         out.append(history_request(b, cfg, steps))
     return out
